@@ -274,17 +274,21 @@ class Composite(LexicalParent[Node], HasCreator, Node, ABC):
         self.provenance_by_execution = []
         self.provenance_by_completion = []
         self.running_children = [n.label for n in self if n.running]
-        self.signal_queue = []
 
         errors: dict[str, Exception] = {}
         accounted_for: set[str] = set()
         if len(self.running_children) > 0:  # Start from a broken process
+            # Signals that were queued but not yet delivered when the process broke
+            # (e.g. at a checkpoint written from a child's `_run_finally`) are part of
+            # the state to continue from: dropping them would strand everything that
+            # waits for them while `run` still returns normally
             for label in list(self.running_children):
                 # (a copy: each child takes itself off `running_children` as it finishes)
                 self.children[label].run()
                 # Running children will find serialized result and proceed,
                 # or raise an error because they're already running
         else:  # Start fresh
+            self.signal_queue = []
             for node in self:
                 # A previous run may have stopped midway (e.g. a child failed); what
                 # the all-of triggers had collected by then belongs to that run
